@@ -24,6 +24,8 @@ pub struct Flags {
     pub keep: bool,
     pub split: bool,
     pub many: bool,
+    /// the server listens on ::1 and the scripted clients use ::1
+    pub v6: bool,
     pub dup: u32,
 }
 
@@ -36,8 +38,17 @@ pub fn parse_flags(s: &str) -> Flags {
         keep: s.contains('k'),
         split: s.contains('x'),
         many: s.contains('m'),
+        v6: s.contains('v'),
         dup: digits.parse().unwrap_or(0),
     }
+}
+
+pub fn listener_of(fl: &Flags, port: u16) -> SocketAddr {
+    if fl.v6 { format!("[::1]:{}", port) } else { format!("127.0.0.1:{}", port) }.parse().unwrap()
+}
+
+pub fn bind_client(fl: &Flags) -> UdpSocket {
+    UdpSocket::bind(if fl.v6 { "[::1]:0" } else { "127.0.0.1:0" }).unwrap()
 }
 
 fn free_port() -> u16 {
@@ -60,6 +71,9 @@ pub fn server_port(root: &Path, flags_s: &str) -> u16 {
     for _ in 0..50 {
         let port = free_port();
         let mut args: Vec<String> = vec!["tftpd".into(), "-p".into(), port.to_string()];
+        if fl.v6 {
+            args.extend(["-i".into(), "::1".into()]);
+        }
         if fl.split {
             args.extend(["-sd".into(), sd.display().to_string(), "-rd".into(), rd.display().to_string()]);
         } else {
@@ -152,6 +166,18 @@ pub fn reset_sandbox(root: &Path, fl: &Flags, spec: &str) -> bool {
             let path = root.join(p);
             if let Some(par) = path.parent() {
                 let _ = std::fs::create_dir_all(par);
+            }
+            if h == "|" {
+                // a FIFO with no writer: opening it for reading blocks
+                extern "C" {
+                    fn mkfifo(path: *const std::os::raw::c_char, mode: u32) -> i32;
+                }
+                use std::os::unix::ffi::OsStrExt;
+                let cp = std::ffi::CString::new(path.as_os_str().as_bytes()).unwrap();
+                if unsafe { mkfifo(cp.as_ptr(), 0o644) } != 0 {
+                    return false;
+                }
+                continue;
             }
             if let Some(target) = h.strip_prefix('@') {
                 // a symbolic link to a file of the same directory (named earlier in the spec)
@@ -247,7 +273,7 @@ pub fn send_error(sock: &UdpSocket, to: &SocketAddr) {
 
 /// one request and its scripted continuation; returns (r1, conv)
 pub fn converse(listener: SocketAddr, dgram: &[u8]) -> (String, String) {
-    let sock = UdpSocket::bind("127.0.0.1:0").unwrap();
+    let sock = UdpSocket::bind(if listener.is_ipv6() { "[::1]:0" } else { "127.0.0.1:0" }).unwrap();
     sock.send_to(dgram, listener).unwrap();
     let cls = |a: &SocketAddr| if *a == listener { "L" } else { "T" };
     let first = recv_packet(&sock, ms(40, 1500));
@@ -362,7 +388,7 @@ pub fn req_line(toks: &[&str]) -> String {
     if !reset_sandbox(&root, &fl, toks[3]) {
         return "bad-op".into();
     }
-    let listener: SocketAddr = format!("127.0.0.1:{}", port).parse().unwrap();
+    let listener: SocketAddr = listener_of(&fl, port);
     let (r1, conv) = converse(listener, &dgram);
     format!("{} ; conv={} ; fs={}", r1, conv, listing(&root))
 }
@@ -403,8 +429,8 @@ pub fn abort_line(toks: &[&str]) -> String {
     if !reset_sandbox(&root, &fl, toks[3]) {
         return "bad-op".into();
     }
-    let listener: SocketAddr = format!("127.0.0.1:{}", port).parse().unwrap();
-    let sock = UdpSocket::bind("127.0.0.1:0").unwrap();
+    let listener: SocketAddr = listener_of(&fl, port);
+    let sock = bind_client(&fl);
     sock.send_to(&dgram, listener).unwrap();
     let mut r1 = "r1=- none".to_string();
     let mut acks: Vec<String> = vec![];
@@ -455,8 +481,8 @@ pub fn timing_line(toks: &[&str]) -> String {
     if !reset_sandbox(&root, &fl, toks[3]) {
         return "bad-op".into();
     }
-    let listener: SocketAddr = format!("127.0.0.1:{}", port).parse().unwrap();
-    let sock = UdpSocket::bind("127.0.0.1:0").unwrap();
+    let listener: SocketAddr = listener_of(&fl, port);
+    let sock = bind_client(&fl);
     sock.send_to(&dgram, listener).unwrap();
     let Some((Ok(Packet::Oack(opts)), from, _)) = recv_packet(&sock, Duration::from_millis(1500)) else {
         return "first=other".into();
@@ -509,8 +535,8 @@ pub fn errstop_line(toks: &[&str]) -> String {
     if !reset_sandbox(&root, &fl, toks[3]) {
         return "bad-op".into();
     }
-    let listener: SocketAddr = format!("127.0.0.1:{}", port).parse().unwrap();
-    let sock = UdpSocket::bind("127.0.0.1:0").unwrap();
+    let listener: SocketAddr = listener_of(&fl, port);
+    let sock = bind_client(&fl);
     sock.send_to(&dgram, listener).unwrap();
     let mut tmo = 5u64;
     let mut from = None;
@@ -562,10 +588,10 @@ pub fn storm_line(toks: &[&str]) -> String {
     if !reset_sandbox(&root, &fl, toks[3]) {
         return "bad-op".into();
     }
-    let listener: SocketAddr = format!("127.0.0.1:{}", port).parse().unwrap();
+    let listener: SocketAddr = listener_of(&fl, port);
     // 'm' (many sources): every datagram of the batch comes from its own fresh endpoint
     let nsock = if fl.many { toks.len() - 5 } else { 3 };
-    let socks: Vec<UdpSocket> = (0..nsock).map(|_| UdpSocket::bind("127.0.0.1:0").unwrap()).collect();
+    let socks: Vec<UdpSocket> = (0..nsock).map(|_| bind_client(&fl)).collect();
     for (i, h) in toks[5..].iter().enumerate() {
         let Some(d) = unhex(h) else { return "bad-op".into() };
         let _ = socks[i % nsock].send_to(&d, listener);
